@@ -55,10 +55,9 @@ let ident what (b : M.byte list) : string =
 
 (* ---------------------------------------------------------------- expressions *)
 (* string literal in single quotes. The expression tokenizer ends a literal at the first quote that is not
-   preceded by a backslash, and the tag scanner ends a tag at the first closing delimiter wherever it stands:
-   backslash, the quote and both braces are escaped; a literal ending in a backslash has no spelling. *)
+   escaped (preceded by an odd number of backslashes), and the tag scanner ends a tag at the first closing
+   delimiter wherever it stands: backslash, the quote and both braces are escaped. *)
 let pp_string (s : string) : string =
-  if s <> "" && s.[String.length s - 1] = '\\' then raise (Unprintable "string literal ends in a backslash");
   let b = Buffer.create (String.length s + 2) in
   Buffer.add_char b '\'';
   String.iter (fun c -> match c with
@@ -81,7 +80,8 @@ let rec atomic = function
   | M.ELit _ | M.EVar _ | M.ECall _ | M.EArr _ | M.EHash _ -> true
   | M.EAttr (e, _) | M.EModCall (e, _, _) -> chain e
   | _ -> false
-(* what may stand before a dot: the parser reads .name only directly after a name, a .name or a .name(...) *)
+(* a name followed by .name / .name(...): read by the parser as ONE simple expression (so it may be the operand of
+   a unary operator); after any other operand .name is a postfix operator like an index or a filter *)
 and chain = function
   | M.EVar _ -> true
   | M.EAttr (e, _) | M.EModCall (e, _, _) -> chain e
@@ -96,9 +96,7 @@ let rec pp_expr (e : M.expr) : string =
     if i < 0 then raise (Unprintable "negative integer literal (a NUMBER token has no sign)") else string_of_int i
   | M.ELit (M.LStr s) -> pp_string (sb s)
   | M.EVar x -> ident "variable" x
-  | M.EAttr (o, a) ->
-    if not (chain o) then raise (Unprintable "attribute access on something that is not a name chain");
-    pp_expr o ^ "." ^ ident "attribute" a
+  | M.EAttr (o, a) -> dotted o ^ "." ^ ident "attribute" a
   | M.EItem (o, i) -> operand o ^ "[" ^ pp_expr i ^ "]"
   | M.EUn (o, a) ->
     (* the operand of a unary operator is a simple expression: no postfix, no binary operator *)
@@ -112,11 +110,14 @@ let rec pp_expr (e : M.expr) : string =
     "{ " ^ String.concat ", " (List.map (fun (k, v) -> wrap k ^ ": " ^ pp_expr v) kvs) ^ " }"
   | M.EFilter (o, f, args) -> operand o ^ "|" ^ ident "filter" f ^ (if args = [] then "" else pp_args args)
   | M.ECall (f, args) -> ident "function" f ^ pp_args args
-  | M.EModCall (m, f, args) ->
-    if not (chain m) then raise (Unprintable "method call on something that is not a name chain");
-    pp_expr m ^ "." ^ ident "method" f ^ pp_args args
+  | M.EModCall (m, f, args) -> dotted m ^ "." ^ ident "method" f ^ pp_args args
   | M.ETest (a, t, args, neg) ->
     wrap a ^ (if neg then " is not " else " is ") ^ ident "test" t ^ (if args = [] then "" else pp_args args)
+(* what stands before a dot; a number in parentheses (12.x would be lexed as a float) *)
+and dotted o =
+  match o with
+  | M.ELit (M.LInt _) -> "(" ^ pp_expr o ^ ")"
+  | _ -> if chain o then pp_expr o else operand o
 and pp_args args = "(" ^ String.concat ", " (List.map pp_expr args) ^ ")"
 (* operand of a binary operator, a conditional or a test: everything compound in parentheses *)
 and wrap e = if atomic e then pp_expr e else "(" ^ pp_expr e ^ ")"
@@ -124,6 +125,7 @@ and wrap e = if atomic e then pp_expr e else "(" ^ pp_expr e ^ ")"
 and operand e =
   match e with
   | M.EItem _ | M.EFilter _ -> pp_expr e
+  | M.EAttr (o, _) | M.EModCall (o, _, _) when not (chain o) -> pp_expr e
   | _ -> wrap e
 
 (* ---------------------------------------------------------------- nodes *)
@@ -198,8 +200,6 @@ let rec pp_node (n : M.node) : string =
           | _ -> raise (Unprintable "with key that is not a literal name")) kvs in
         let obj = "{ " ^ String.concat ", " items ^ " }" in
         if contains_ci obj " with " then raise (Unprintable "with value containing the word with");
-        if not (ign || only || sandboxed) && comma_in_parens obj then
-          raise (Unprintable "with-object at the end of the tag with a comma inside parentheses");
         " with " ^ obj
       | Some _ -> raise (Unprintable "with value that is not a hash literal") in
     "{% include " ^ name ^ w ^ (if ign then " ignore missing" else "") ^ (if only then " only" else "")
@@ -396,6 +396,12 @@ let gen_ctx r : (string * M.value) list =
         | _ -> vlist (List.init (rint r 6) (fun _ -> gen_value r ~depth:1)));
     "m", gen_map r ~depth:2;
     "t", M.VBool (rbool r);
+    "e1", (match rint r 5 with
+        | 0 -> M.VList (M.LArray, List.init (rint r 4) (fun _ -> gen_value r ~depth:0))
+        | 1 -> M.VPtr (if rbool r then None else Some (gen_value r ~depth:1))
+        | 2 -> M.VOpaque (nat_of_int 1)
+        | 3 -> vlist (List.init (rint r 5) (fun _ -> if rbool r then vint (rint r 30 - 10) else vfloat (rint r 30 - 10)))
+        | _ -> gen_value r ~depth:1);
     "ys", (match rint r 3 with
         | 0 -> M.VList (M.LStrings, List.init (rint r 4) (fun _ -> vstr (pick r str_pool)))
         | 1 -> M.VList (M.LInts, List.init (rint r 5) (fun _ -> vint (rint r 30 - 10)))
@@ -405,7 +411,7 @@ let gen_ctx r : (string * M.value) list =
         | 1 -> M.VMap (M.MStrInt, gen_keys r |> List.map (fun k -> (vstr k, vint (rint r 9))))
         | 2 -> M.VMap (M.MIntStr, List.sort_uniq compare (List.init (rint r 5) (fun _ -> rint r 14)) |> List.map (fun k -> (vint k, vstr (pick r str_pool))))
         | _ -> gen_map r ~depth:1) ] in
-  let extra = List.init (rint r 4) (fun _ -> (pick r [| "a"; "b"; "c"; "q"; "e1" |], gen_value r ~depth:2)) in
+  let extra = List.init (rint r 4) (fun _ -> (pick r [| "a"; "b"; "c"; "q" |], gen_value r ~depth:2)) in
   (* later bindings of the same name win in a Go map literal; keep the first *)
   List.fold_left (fun acc (k, v) -> if List.mem_assoc k acc then acc else acc @ [ (k, v) ]) [] (fixed @ extra)
 
@@ -500,8 +506,8 @@ and gen_typed r (o : gopts) ~depth (ty : gty) : M.expr =
   | TMap ->
     (match if leaf then rint r 2 else rint r 5 with
       | 0 -> var "m"
-      | 1 -> M.EHash (List.map (fun k -> (lit_str k, gen_leaf r { o with allow_calls = false })) (gen_keys r))
-      | 2 -> M.EFilter (sub TMap, bs "merge", [ sub TMap ])
+      | 1 -> M.EHash (List.map (fun k -> (lit_str k, sub (pick r [| TNum; TStr; TAny |]))) (gen_keys r))
+      | 2 -> M.EFilter (sub (if rint r 4 = 0 then TAny else TMap), bs "merge", [ (if rint r 5 = 0 then var "u" else sub TMap) ])
       | 3 -> M.EHash [ (lit_str (pick r key_pool), sub TAny) ]
       | _ -> var "m")
   | TAny ->
@@ -525,7 +531,7 @@ and gen_wild r (o : gopts) ~depth : M.expr =
     match rint r 34 with
     | 0 | 1 | 2 -> gen_leaf r o
     | 3 -> M.EAttr (gen_chain r o, bs (pick r [| "a"; "b"; "k"; "name"; "index"; "length"; "first"; "last"; "x" |]))
-    | 4 -> M.EItem (sub (), (if rbool r then lit_int (rint r 4) else sub ()))
+    | 4 -> if rint r 3 = 0 then M.EAttr (sub (), bs (pick r key_pool)) else M.EItem (sub (), (if rbool r then lit_int (rint r 4) else sub ()))
     | 5 -> M.EUn (pick r [| M.UNot; M.UNot; M.UNeg; M.UPos |], sub ())
     | 6 | 7 | 8 | 9 | 10 | 11 ->
       let ops = if o.in_do then [| M.BAdd; M.BSub; M.BMul; M.BDiv; M.BMod; M.BConcat; M.BAnd; M.BOr; M.BLt; M.BGt; M.BIn; M.BNotIn; M.BPow |]
@@ -539,11 +545,10 @@ and gen_wild r (o : gopts) ~depth : M.expr =
     | 12 | 13 -> M.ECond (sub (), sub (), sub ())
     | 14 | 15 -> M.EArr (List.init (rint r 4) (fun _ -> sub ()))
     | 16 ->
-      (* more than one entry: leaves only, because Go evaluates the entries in an undefined order *)
+      (* entries are evaluated in source order; with a repeated key the last value wins *)
       let ks = gen_keys r in
-      (match ks with
-       | [ k ] -> M.EHash [ (lit_str k, sub ()) ]
-       | _ -> M.EHash (List.map (fun k -> (lit_str k, gen_leaf r { o with allow_calls = false })) ks))
+      let ks = if ks <> [] && rint r 4 = 0 then ks @ [ List.hd ks ] else ks in
+      M.EHash (List.map (fun k -> (lit_str k, sub ())) ks)
     | 17 | 18 | 19 | 20 | 21 ->
       let base = sub () in
       (match rint r 12 with
